@@ -309,7 +309,8 @@ pub fn run(tier: Tier) -> i32 {
     let mut rep = Reporter::new("C19", tier, "exploration");
     let mut cases = Vec::new();
     let variants = if tier.is_thorough() { 6 } else { 2 };
-    for fmt in [0u8, 2, 9] {
+    // (data format 1 passes the RDH sanity check like 0 and 2; only format 0 has 16-byte word slots)
+    for fmt in [0u8, 1, 2, 9] {
         for v in 0..variants {
             let pk = alphabet_stream(fmt, v);
             let bytes = stream::to_bytes(&pk);
